@@ -118,7 +118,31 @@ func (w *Worker) buildCex(s *State, label, neg, note string) *Cex {
 				half = append(half, "(or (= "+t+" "+zeroTime+") (= (mod (- "+t+" "+nows[0]+") 500000000) 0))")
 			}
 		}
-		for _, tier := range [][]string{append(append([]string{neg}, shape...), small...), append([]string{neg}, shape...), append([]string{neg}, half...), append([]string{neg}, nowsEq...)} {
+		// strings: printable ASCII (survives JSON, cookies and URLs unchanged natively) and
+		// case-mapping applications that are the identity (the UF over-approximates ToLower/ToUpper)
+		var strShape []string
+		for _, n := range s.Nondet {
+			if n.Kind == "string" {
+				strShape = append(strShape, "(str.in_re "+n.Term+" (re.* (re.range \" \" \"~\")))")
+			}
+		}
+		for _, u := range s.UF {
+			if (u.Name == "strings.ToLower" || u.Name == "strings.ToUpper") && len(u.Args) == 1 {
+				strShape = append(strShape, tEq(u.Res, u.Args[0]))
+			}
+		}
+		cat := func(parts ...[]string) []string {
+			out := []string{neg}
+			for _, p := range parts {
+				out = append(out, p...)
+			}
+			return out
+		}
+		tiers := [][]string{cat(shape, small), cat(shape), cat(half), cat(nowsEq)}
+		if len(strShape) > 0 {
+			tiers = append([][]string{cat(shape, small, strShape), cat(shape, strShape)}, tiers...)
+		}
+		for _, tier := range tiers {
 			if len(tier) == 1 {
 				continue
 			}
